@@ -89,7 +89,7 @@ ASSUMPTIONS = [
 EMU = 914400
 FORMATS = ["PNG", "JPEG", "GIF", "BMP", "TIFF"]
 CANON_EXT = {"PNG": "png", "JPEG": "jpg", "GIF": "gif", "BMP": "bmp", "TIFF": "tiff"}
-DPI_QUICK = [None, 72, 96, 300, (72, 144), 0, 0.5, 72.009, 3000]
+DPI_QUICK = [None, 72, 96, 300, (72, 144), 0, 0.5, 72.009, 3000, 7, 220]   # 7 and 220 do not divide 914400
 DPI_MORE = [1, 1.5, 2.5, 150, 2048, 2049, 0.4, 0.6, 2048.4, (300, 72)]
 SIZES_QUICK = [(w, h) for w in range(1, 5) for h in range(1, 5)] + [(300, 200)]
 SIZES_MORE = [(1, 1000), (1000, 1), (7, 5), (640, 480)]
